@@ -635,7 +635,7 @@ pub fn c18() -> ExecDriver {
     ExecDriver { pid: "C18", focus: Focus::BlockEntry, rule_text: concat!("tape -> G-exec program with nested block/loop/if/else (terminating by construction) -> 1-3 argument vectors per export -> block-entry probes on a random subset of block / loop / if / else instructions through every API path; ticks on every non-structural instruction in half of the cases -> encode -> validates -> reference interpreter on original (monitor) and instrumented module: same results/traps/state and log == monitor events group by group. ", "Monitor: block: when the block is entered; loop: on entry and on every branch back to the loop label; if: when the condition is true; else: when the condition is false. Non-trivial: an instrumented loop iterates >= 2 times or an instrumented else-arm is entered.") }
 }
 pub fn c19() -> ExecDriver {
-    ExecDriver { pid: "C19", focus: Focus::BlockExit, rule_text: concat!("tape -> G-exec program with constructs nested inside if-arms (terminating by construction) -> 1-3 argument vectors per export -> block-exit probes on a random subset of block / loop / if / else instructions; ticks in half of the cases -> encode -> validates -> reference interpreter on original (monitor) and instrumented module: same results/traps/state and log == monitor events group by group. ", "Monitor: block / loop / else: each time the body falls through to its end; if: each time the then-arm falls through to its else or end; never when the construct is left by a branch. Non-trivial: an instrumented construct is left by a taken branch, or an instrumented if whose then-arm contains a nested construct falls through. The class 'block-exit on an if whose then-arm contains a nested construct' is a listed known finding (steered around, probed separately).") }
+    ExecDriver { pid: "C19", focus: Focus::BlockExit, rule_text: concat!("tape -> G-exec program with constructs nested inside if-arms (terminating by construction) -> 1-3 argument vectors per export -> block-exit probes on a random subset of block / loop / if / else instructions; ticks in half of the cases -> encode -> validates -> reference interpreter on original (monitor) and instrumented module: same results/traps/state and log == monitor events group by group. ", "Monitor: block / loop / else: each time the body falls through to its end; if: each time the then-arm falls through to its else or end; never when the construct is left by a branch. Non-trivial: an instrumented construct is left by a taken branch, or an instrumented if whose then-arm contains a nested construct falls through.") }
 }
 pub fn c20() -> ExecDriver {
     ExecDriver { pid: "C20", focus: Focus::SemAfter, rule_text: concat!("tape -> G-exec program with branches inside loops and br_table fans over several depths (terminating by construction) -> 1-3 argument vectors per export -> semantic-after probes on a random subset of block / if / else instructions and of br / br_if / br_table / br_on_* instructions none of whose targets is a loop; ticks in half of the cases -> encode -> validates -> reference interpreter on original (monitor) and instrumented module: same results/traps/state and log == monitor events group by group. ", "Monitor: construct: each time control reaches the instruction behind the construct (fall-through or branch to its label); branch: exactly once per execution - on arrival behind the target when taken, immediately when a conditional branch falls through. Non-trivial: a target end is reached in one run both via the instrumented branch and via another path (or an instrumented construct is left by a branch). Listed known findings: branch to the function label; flag of a taken branch never cleared (main domain keeps branches whose every execution enters the target afresh).") }
